@@ -33,7 +33,7 @@ def digits_of(m, n, D):
     return k + 1
 
 
-def run_case(kind, D, p, mode, g=0, form=None):
+def run_case(kind, D, p, mode, g=0, form=None, Lmin=1):
     n, y, s0 = z3.Ints('n y s0')
 
     def run(m):
@@ -41,6 +41,8 @@ def run_case(kind, D, p, mode, g=0, form=None):
         S.DIGIT_BOUND[0] = D + 2 if kind not in ('add_refs', 'add_refs_into') else 2 * D + abs(g) + 4
         K.DIGITS_MAX[0] = S.DIGIT_BOUND[0]
         m.assume(z3.And(s0 >= -C.SCALE_BOUND, s0 <= C.SCALE_BOUND, n > -10 ** D, n < 10 ** D))
+        if Lmin > 1:
+            m.assume(z3.Or(n >= 10 ** (Lmin - 1), n <= -10 ** (Lmin - 1)))
         a = C.dec(n, s0)
         if kind == 'with_precision_round':
             r = m.call('BigDecimal::with_precision_round', [Ref([a], 0), p, mode_val(mode)], ['&BigDecimal', 'NonZero<u64>', 'rounding::RoundingMode'], 'BigDecimal')
@@ -101,7 +103,7 @@ def worker(t):
     saved = list(E.DEFAULT_OVERRIDES)
     try:
         E.DEFAULT_OVERRIDES[:] = K.DIGIT_CONTRACTS + K.ROUNDING_TERM_CONTRACTS if t.get('contracts', True) else []
-        return H.explore_task(prog, run_case(t['kind'], t['D'], t['p'], t.get('mode', 'HalfUp'), t.get('g', 0), t.get('form')), task=t,
+        return H.explore_task(prog, run_case(t['kind'], t['D'], t['p'], t.get('mode', 'HalfUp'), t.get('g', 0), t.get('form'), t.get('Lmin', 1)), task=t,
                               loop_bound=1500, timeout_ms=60000, deadline_s=900)
     finally:
         E.DEFAULT_OVERRIDES[:] = saved
@@ -195,6 +197,15 @@ def main(tier):
             tasks.append({'kind': 'round_with_context', 'D': D, 'p': p, 'mode': mode})
             for form in ('&BigDecimal', "BigDecimalRef<'_>", '&num_bigint::BigInt'):
                 tasks.append({'kind': 'round_decimal_ref', 'D': D, 'p': p, 'mode': mode, 'form': form})
+    # long inputs (more than p+20 digits) through every precision-rounding entry point
+    DL = 26 if tier == 'quick' else 40
+    for mode in ('HalfEven', 'Up', 'Ceiling', 'Floor', 'HalfDown') if tier == 'quick' else MODES:
+        for p in (1, 4) if tier == 'quick' else (1, 2, 4, 9, 17):
+            tasks.append({'kind': 'with_precision_round', 'D': DL, 'p': p, 'mode': mode, 'Lmin': DL - 3})
+            tasks.append({'kind': 'round_decimal', 'D': DL, 'p': p, 'mode': mode, 'Lmin': DL - 3})
+            tasks.append({'kind': 'round_with_context', 'D': DL, 'p': p, 'mode': mode, 'Lmin': DL - 3})
+            for form in ('&BigDecimal', "BigDecimalRef<'_>", '&num_bigint::BigInt'):
+                tasks.append({'kind': 'round_decimal_ref', 'D': DL, 'p': p, 'mode': mode, 'form': form, 'Lmin': DL - 3})
     # real digit-counting body (no contract) on a smaller bound
     for mode in ('HalfEven', 'Up'):
         for p in (1, 2, 5):
